@@ -188,6 +188,11 @@ def run(ctx: Ctx, env):
                          f"- not an ODataException - under {p.cond_str()[:140]}", where, _witness(funcs, None, None, kind))
             else:
                 v = p.value
+                raw = _raw_nodes(v)
+                if raw:
+                    ctx.fail("R9.no-untranslated-node-in-output", f"{owner_short}|{raw[0][0]}",
+                             f"[{vs}] {label}: the result contains the syntax-tree object {raw[0][1]} itself (its Python repr / an object the "
+                             f"backend cannot use) instead of its translation, under {p.cond_str()[:120]}", where, _witness(funcs, None, None, kind))
                 if isinstance(v, Const) and v.v is None and kind not in ("NoneType",):
                     ctx.fail("R6.handler-returns-a-translation", f"{owner_short}|returns-None",
                              f"[{vs}] {label} can return None (nothing translated) under {p.cond_str()[:140]}", where)
@@ -294,4 +299,60 @@ def _bare_getattrs(v) -> List[Tuple[str, str]]:
     elif isinstance(v, (tuple, list)):
         for a in v:
             out.extend(_bare_getattrs(a))
+    return out
+
+
+def _raw_nodes(v, out=None, depth=0):
+    """AST nodes / node lists that sit in a result as themselves: not as the argument of a visit, not as the object of a
+    field read, not as the source of a map. -> [(stable label, description)]"""
+    from ..values import ListV, MapV, NewNode, PyDict, PyList, PyTuple
+    if out is None:
+        out = []
+    if depth > 40 or len(out) > 3:
+        return out
+    if isinstance(v, NodeV):
+        if v.kinds - {"NoneType"}:
+            out.append((v.path.split("[")[0].split(".")[-1] or "node", f"{v.path} ({', '.join(sorted(v.kinds))[:60]})"))
+        return out
+    if isinstance(v, (ListV,)):
+        out.append((v.path.split(".")[-1], f"list {v.path}"))
+        return out
+    if isinstance(v, NewNode):
+        out.append((f"new:{v.cls}", f"a freshly built ast.{v.cls}"))
+        return out
+    if isinstance(v, Str):
+        for part in v.parts:
+            if part[0] == "dyn":
+                _raw_nodes(part[1], out, depth + 1)
+            elif part[0] == "join":
+                _raw_nodes(part[2], out, depth + 1)
+                if not isinstance(part[3], ListV):  # the list being joined over (its items are in part[2])
+                    _raw_nodes(part[3], out, depth + 1)
+        return out
+    if isinstance(v, MapV):
+        _raw_nodes(v.elem, out, depth + 1)
+        if not isinstance(v.over, ListV):
+            _raw_nodes(v.over, out, depth + 1)
+        return out
+    if isinstance(v, (PyList, PyTuple)):
+        for i in v.items:
+            _raw_nodes(i, out, depth + 1)
+        return out
+    if isinstance(v, PyDict):
+        for i in v.items.values():
+            _raw_nodes(i, out, depth + 1)
+        return out
+    if isinstance(v, Sym):
+        if v.op in ("visit", "field", "prop", "meth", "typeof", "cfg", "param", "len", "isinstance", "hasattr", "dispatch"):
+            return out  # the node is handed on to a handler / only inspected, not put into the result
+        for a in v.args:
+            if isinstance(a, (tuple, list)):
+                for x in a:
+                    if isinstance(x, tuple):
+                        for y in x:
+                            _raw_nodes(y, out, depth + 1)
+                    else:
+                        _raw_nodes(x, out, depth + 1)
+            else:
+                _raw_nodes(a, out, depth + 1)
     return out
